@@ -363,6 +363,27 @@ def gen_cases(seed, tier):
         ws = file_words(render_csv(f))
         cases.append({'kind': 'csv', 'file': f, 'txns': with_neighbours(rnd, [gen_txn(rnd, ws) for _ in range(3)]),
                       'ds': DS if k % 2 else None})
+    # corpus: a walrus target in one rule's match (true, false, in a tag-only rule) and LATER rules that read the same name
+    # through a let binding, a top-level variable, a primitive, or not at all (then it is undefined: rule skipped)
+    wr = lambda n, m, c, lets=(): {'name': n, 'match': m, 'category': c, 'subcategory': '', 'merchant': '', 'tags': [] if c else ['t'],
+                                   'priority': None, 'lets': list(lets), 'fields': []}
+    wtx = lambda d, a: {'d': d, 'a': a, 'date': '2025-01-15', 'field': None, 'source': 'Amex', 'location': None}
+    for first in (wr('Costco Bulk', '(big_buy := amount > 200) and contains("COSTCO")', 'Groceries'),
+                  wr('Costco Tag', '(big_buy := amount > 200) and contains("COSTCO")', ''),
+                  wr('Any', '(big_buy := amount > 200) or true', ''),
+                  wr('Prim', '(amount := 5000) > 0 and contains("COSTCO")', 'Groceries'),
+                  wr('Var', '(is_large := true) and contains("COSTCO")', 'Groceries')):
+        cases.append({'kind': 'rules', 'ds': None, 'file': {'vars': [('is_large', 'amount > 1000')], 'tfs': [], 'rules': [
+            first, wr('Big Ticket', 'big_buy', 'Shopping', [('big_buy', 'amount > 1000')]), wr('Huge', 'amount > 2000', 'Luxury'),
+            wr('Large', 'is_large', 'Large'), wr('Undefined', 'big_buy', 'Never'), wr('Best Buy', 'contains("BEST BUY")', 'Electronics')]},
+            'txns': [wtx('BEST BUY 00123', 153600), wtx('CORNER CAFE 42', 153600), wtx('COSTCO 7', 153600), wtx('COSTCO 7', 5120)]})
+    # corpus: a legacy row with an empty / blank Merchant cell that wins, followed by further matching categorizing rows
+    for mer in ('', ' '):
+        cases.append({'kind': 'csv', 'ds': None, 'file': {'tfs': [], 'rows': [
+            {'pattern': 'COSTCO GAS', 'merchant': mer, 'category': 'Transport', 'subcategory': 'Fuel', 'tags': []},
+            {'pattern': 'COSTCO', 'merchant': 'Costco', 'category': 'Groceries', 'subcategory': 'Wholesale', 'tags': ['bulk']},
+            {'pattern': 'KIRKLAND', 'merchant': 'Kirkland', 'category': 'Shopping', 'subcategory': '', 'tags': []}]},
+            'txns': [wtx('COSTCO GAS #0042 KIRKLAND', 20480), wtx('COSTCO #7', 20480)]})
     # corpus: rows of one statement that differ only in a custom column, decided by rules reading field.memo
     zrule = lambda n, m, c, s: {'name': n, 'match': m, 'category': c, 'subcategory': s, 'merchant': '', 'tags': [], 'priority': None,
                                 'lets': [], 'fields': []}
